@@ -279,6 +279,11 @@ func (eng *Engine) loadContractFile(root, path string) error {
 			if curLoop != nil {
 				curLoop.Decreases = rest
 			}
+		case "monotone":
+			// a ghost counter that no function may decrease: assumed after every call that may assign it, proved at
+			// every return of every function under contract that may assign it
+			eng.monotone[strings.TrimSpace(rest)] = true
+			cur, curLoop = nil, nil
 		case "spec", "define":
 			sf, err := parseSpecFunc(rest, kw == "define")
 			if err != nil {
@@ -1334,7 +1339,8 @@ func (e *Env) callExpr(x *ast.CallExpr) TV {
 			specErr("isOpt: %s is not an option constructor with exactly one closure", nm)
 		}
 		u.s.declFun("closure_fn", []Sort{SInt}, SInt)
-		return TV{T: eq(sx("closure_fn", v.T), intLit(u.eng.funcID(ctor.AnonFuncs[0]))), Ty: tBool}
+		fid := intLit(u.eng.funcID(ctor.AnonFuncs[0]))
+		return TV{T: or(eq(v.T, fid), and(sx("<", v.T, "0"), eq(sx("closure_fn", v.T), fid))), Ty: tBool}
 	case "alloc":
 		return TV{T: u.alloc(e.st), Ty: tInt}
 	case "fresh":
